@@ -100,6 +100,24 @@ func isBlockingForever(argv []string) bool {
 	return false
 }
 
+// stallLimit: how long a command may take before it counts as a stall. A blocking command with a timeout
+// argument legitimately takes that long (false alarm of a loaded machine: `brpop NX #2147483647 3`, three
+// seconds by its own timeout, was reported after five).
+func stallLimit(argv []string) time.Duration {
+	limit := 8 * time.Second
+	if len(argv) > 1 {
+		switch strings.ToLower(argv[0]) {
+		case "blpop", "brpop", "blmove", "brpoplpush", "blmpop":
+			for _, a := range argv[1:] {
+				if f, err := strconv.ParseFloat(a, 64); err == nil && f > 0 && f < 60 {
+					limit += time.Duration(f * float64(time.Second))
+				}
+			}
+		}
+	}
+	return limit
+}
+
 func main() {
 	seed := flag.Int64("seed", 1, "seed")
 	n := flag.Int("n", 30000, "grid dispatches")
@@ -226,12 +244,12 @@ func main() {
 					if !ok {
 						fail("liveness", argv, "second connection did not get PONG after this command")
 					}
-				case <-time.After(3 * time.Second):
-					fail("stall", argv, fmt.Sprintf("after %q another connection is not served within 3 s", argv))
+				case <-time.After(6 * time.Second):
+					fail("stall", argv, fmt.Sprintf("after %q another connection is not served within 6 s", argv))
 				}
 			}
-		case <-time.After(5 * time.Second):
-			fail("stall", argv, fmt.Sprintf("%q did not return within 5 s", argv))
+		case <-time.After(stallLimit(argv)):
+			fail("stall", argv, fmt.Sprintf("%q did not return within %v", argv, stallLimit(argv)))
 		}
 	}
 
